@@ -675,7 +675,7 @@ def robust_eval(ctx, exprs, imports, tag, shard, jobs):
             for attempt in range(1 if len(part) > 1 else 3):
                 try:
                     return ctx.coq_eval(part, imports, tag='%s_r%d_%d' % (tag, depth, lo),
-                                        shard=max(1, min(shard, len(part))), jobs=jobs)
+                                        shard=max(1, min(shard >> (depth + 1), len(part))), jobs=jobs)
                 except Exception as e:
                     err = e
             if len(part) == 1:
@@ -828,8 +828,8 @@ def run(ctx):
             ctx.count('memories', len(mems))
     model_ok = True
     try:
-        results = robust_eval(ctx, exprs, IMPORTS, 'c09', 3 if quick else 8, 16)
-        extra_res = robust_eval(ctx, extra_exprs, IMPORTS, 'c09real', 12, 14) if extra_exprs else []
+        results = robust_eval(ctx, exprs, IMPORTS, 'c09', 3 if quick else 2, 16)
+        extra_res = robust_eval(ctx, extra_exprs, IMPORTS, 'c09real', 12 if quick else 6, 14) if extra_exprs else []
     except Exception as e:      # the model no longer builds (e.g. an untranslatable rule): the SEARCH must still run
         model_ok = False
         ctx.model_mismatch('Pass/Lower.v model could not be evaluated: %s' % str(e)[-500:], {})
